@@ -270,7 +270,6 @@ func (s *Sim) fireDelayed() {
 	}
 }
 
-
 // fixedPointDefect returns "" when set is converged in the sense of DESIGN §4.4.
 func (s *Sim) fixedPointDefect(set *asv1.StatefulSet) string {
 	if set.DeletionTimestamp != nil {
